@@ -362,7 +362,9 @@ def delitem (x : Index) (E : Externals) (now : Int) (k : PyVal) : Index × Out :
   ({ cache := c }, match o with | .bool true => .none | o => o)
 
 /-- `setdefault`: lock-free look-up; on KeyError look up again, `add` and look up once more inside
-one transaction block, so that the default is added at most once -/
+one transaction block, so that the default is added at most once.  An `add` that raises (default
+that cannot be stored, key that cannot be bound) leaves the block through the exception: the block
+is rolled back and the exception propagates -/
 def setdefault (x : Index) (E : Externals) (now : Int) (k v : PyVal) : Index × Out :=
   let (c, o) := x.cache.get E now k false false false
   match o with
@@ -371,11 +373,14 @@ def setdefault (x : Index) (E : Externals) (now : Int) (k v : PyVal) : Index × 
     let (c, o) := c.get E now k false false false
     match o with
     | .default =>
-      let (c, _) := c.add E now k v none false .null
-      let (c, o) := c.get E now k false false false
-      match o with
-      | .default => ({ cache := c.traise 1 }, .exc "KeyError")
-      | o => ({ cache := c.tend }, o)
+      let (c, oa) := c.add E now k v none false .null
+      match oa with
+      | .exc e => ({ cache := c.traise 1 }, .exc e)
+      | _ =>
+        let (c, o) := c.get E now k false false false
+        match o with
+        | .default => ({ cache := c.traise 1 }, .exc "KeyError")
+        | o => ({ cache := c.tend }, o)
     | o => ({ cache := c.tend }, o)
   | o => ({ cache := c }, o)
 
